@@ -2,8 +2,8 @@ package exec
 
 import (
 	"fmt"
-	"strings"
 	"os"
+	"strings"
 
 	"verif/govc/term"
 )
